@@ -13,7 +13,8 @@ from .model import Src, g_char, g_text
 from .refs import DIALECTS
 
 SOUP_ALPHABET = ["|", "\\", "n", "@", "#", ":", '"', "`", "<", ">", " ", "\t", "\r", "\n", "\n", "a", "*", "-", "{", "}", "%", "'", "$", "(", ")", "[", "]"]
-DECOYS = ["{\"json\": {\"a\": 1}}", "Given {int} cukes", "{0} {name} {", "} %s %d %(k)s", "100% done", "it's", "@a b", "@", "@t #c", "#language: xx", "# language: fr", "#language:en", "| a |", "| a | b |", "|", "| \\", "| \\| | \\n |", '"""', "```",
+DECOYS = ["# language: es-419", "#language: fr2", "# language: [fr]", "#language:en^", "# language: `en`", "# language: français", "#language: en_au", "#language: en-au",
+          "{\"json\": {\"a\": 1}}", "Given {int} cukes", "{0} {name} {", "} %s %d %(k)s", "100% done", "it's", "@a b", "@", "@t #c", "#language: xx", "# language: fr", "#language:en", "| a |", "| a | b |", "|", "| \\", "| \\| | \\n |", '"""', "```",
           '"""json', "``` x", "Examples:", "Scenario: s", "Scenario Outline: <a>", "Feature: f", "Rule: r", "Background:", "Given x", "And <a>", "* y",
           "When ", "Then <b> z", "", "  ", "text", "\t", "\r", "<a>", "|(|", "| a(b | $1 |", "Given <a(b> <$1> <[>", "@x #c", " ", "\x0b", "\x1c", "\x85",
           "Fonctionnalité: z", "Scénario: q", "Soit x", "Egenskap: e", "Examples: e", "@a @b", "# c"]
@@ -96,7 +97,8 @@ def mutate_lines(s, lines, other_lines):
             else:
                 lines.insert(i, "@a b")
         elif k == 10:
-            lines.insert(0, s.choice(["#language: xx", "# language: zz-top", "#language: fr", "#language:no"]))
+            lines.insert(0, s.choice(["#language: xx", "# language: zz-top", "#language: fr", "#language:no", "# language: es-419", "#language: fr2", "# language: [fr]", "#language:en^",
+                                      "# language: `en`", "# language: français", "#language: en_au", "#language: en-au", "#language: EN", "# language: en.us"]))
         else:
             lines[i] = s.choice(DECOYS)
     return lines
